@@ -9,7 +9,7 @@ from fractions import Fraction
 from harness import common, oplab
 
 ID = "C09"
-LEAN_MODULES = ["PptxModel.Props.C09", "PptxModel.Props.C09C", "PptxModel.Props.C09F", "PptxModel.Props.C09A"]
+LEAN_MODULES = ["PptxModel.Props.C09", "PptxModel.Props.C09C", "PptxModel.Props.C09F", "PptxModel.Props.C09A", "PptxModel.Props.C09S"]
 RULE = (
     "the property table of harness/oplab.py (~110 read/write properties of Presentation, slides, shapes, pictures, "
     "connectors, text frames, paragraphs, runs, fonts, lines, colours, gradient / pattern fills, tables, cells, rows, "
@@ -21,6 +21,7 @@ RULE = (
     "readings again after save + re-open.  Stored integers of the non-identity conversions (font size, rotation, crop, "
     "adjustments, brightness, gradient angle, stop position, line spacing) and assignment histories on attribute stores "
     "(a:rPr, a:bodyPr, a:tcPr) are compared exactly with the Lean model.  ColorFormat, FillFormat and shape.adjustments are compared "
+    "(and paragraph spacing: line_spacing / space_before / space_after, Model/Spacing) "
     "with their state-machine models (Model/Color, Model/Fill, Model/Adjust) after every call of seeded histories from start states "
     "the library never writes, each call through a proxy held from the start or through a new one (fonts, fills, lines, gradient "
     "stops, pattern colours, table cells, chart series, slide backgrounds; the owner's .color shortcut; several proxies of one "
@@ -1157,6 +1158,146 @@ def adjustment_proxies(ctx):
             ctx.disagree("adjustments", dict(meta, line=line), i, m)
 
 
+def spacings(ctx):
+    """paragraph spacing against `Model/Spacing` (`c09.spc`): start states the library never writes (no a:pPr, a spacing element
+    holding both children, or - for spcBef / spcAft - none), seeded histories of assignments to line_spacing / space_before /
+    space_after (None, Lengths, numbers of lines, plain ints, values just outside the domain) through a paragraph proxy held
+    from the start or a new one; after EVERY assignment the verdict, the stored elements and the three readings"""
+    from lxml import etree
+    from pptx import Presentation
+    from pptx.util import Emu, Length
+
+    rng = ctx.rng
+    A = oplab_ns()
+    names = {"L": ("lnSpc", "line_spacing"), "B": ("spcBef", "space_before"), "A": ("spcAft", "space_after")}
+    scripts = [("0:-:-:-", ["B=e76263", "L=l175000", "L=e-1", "A=n"]),
+               ("1:150000/1200:n/n:-", ["A=e20116800", "L=l13200001", "L=n", "B=e127"]),
+               ("1:-:80000/n:n/300", ["L=e152400", "L=l0", "B=e20116801", "A=l254"])]
+    lines, impl, metas = [], [], []
+    for trial in range(40 if ctx.quick else 800):
+        prs = Presentation(); slide = prs.slides.add_slide(prs.slide_layouts[6])
+        tf = slide.shapes.add_textbox(0, 0, 99999, 99999).text_frame
+        para = tf.paragraphs[0]
+        p = para._p
+
+        def slot_txt():
+            k = rng.randrange(7)
+            if k < 2:
+                return "-"
+            a = str(rng.choice([0, 90000, 100000, 150000, 13200000])) if k in (2, 4) else "n"
+            b = str(rng.choice([0, 1, 600, 1200, 158400])) if k in (3, 4, 5) else "n"
+            return a + "/" + b
+        if trial < len(scripts):
+            start, ops = scripts[trial]
+        else:
+            if rng.randrange(4) == 0:
+                start = "0:-:-:-"
+            else:
+                ln = slot_txt()
+                while ln == "n/n":          # a:lnSpc with neither child: reading is an AttributeError, kept for one scripted case
+                    ln = slot_txt()
+                start = "1:%s:%s:%s" % (ln, slot_txt(), slot_txt())
+            ops = []
+            for _ in range(rng.randint(1, 7)):
+                w = rng.choice("LBA")
+                k = rng.randrange(10)
+                if k == 0:
+                    v = "n"
+                elif k < 5:
+                    v = "e%d" % rng.choice([0, 1, 126, 127, 128, 12700, 76200, 76263, 20116800, 20116801, -1, -127, rng.randint(0, 20116800)])
+                elif w == "L":
+                    v = "l%d" % rng.choice([0, 1, 100000, 150000, 175000, 200000, 13200000, 13200001, -1, rng.randint(0, 13200000)])
+                else:
+                    v = "l%d" % rng.choice([0, 126, 127, 254, 12700, 20116800, 20116801, -1])      # a plain int: an EMU count
+                ops.append(w + "=" + v)
+        flag, *slots = start.split(":")
+        if flag == "1":
+            pPr = p.get_or_add_pPr()
+            for (tag, _), txt in zip(names.values(), slots):
+                if txt == "-":
+                    continue
+                a, b = txt.split("/")
+                el = etree.SubElement(pPr, "{%s}%s" % (A, tag))
+                if a != "n":
+                    etree.SubElement(el, "{%s}spcPct" % A).set("val", a)
+                if b != "n":
+                    etree.SubElement(el, "{%s}spcPts" % A).set("val", b)
+
+        def state():
+            pPr = p.find("{%s}pPr" % A)
+            out = ["1" if pPr is not None else "0"]
+            for tag, _ in names.values():
+                els = [] if pPr is None else pPr.findall("{%s}%s" % (A, tag))
+                if not els:
+                    out.append("-"); continue
+                if len(els) > 1:
+                    out.append("several"); continue
+                pc = els[0].findall("{%s}spcPct" % A); pt = els[0].findall("{%s}spcPts" % A)
+                if len(pc) > 1 or len(pt) > 1 or len(els[0]) != len(pc) + len(pt):
+                    out.append("other"); continue
+                out.append("%s/%s" % (pc[0].get("val") if pc else "n", pt[0].get("val") if pt else "n"))
+            rd = []
+            q = tf.paragraphs[0]
+            for _, attr in names.values():
+                try:
+                    v = getattr(q, attr)
+                except AttributeError:
+                    rd.append("X"); continue
+                if v is None:
+                    rd.append("n")
+                elif isinstance(v, Length):
+                    rd.append("e%d" % int(v))
+                else:
+                    rd.append("l%d" % round(Fraction(v) * 100000))
+            return ":".join(out) + "|" + ",".join(rd)
+        outs = ["start|" + state()]
+        want = outs[0].split("|")[-1].split(",")
+        for op in ops:
+            w, v = op.split("=")
+            attr = names[w][1]
+            if v == "n":
+                val = None
+            elif v[0] == "e":
+                val = Emu(int(v[1:]))
+            elif w == "L":
+                n = int(v[1:])
+                val = n // 100000 if n % 100000 == 0 and rng.randrange(2) else n / 100000.0
+            else:
+                val = int(v[1:])
+            target = para if rng.randrange(2) else tf.paragraphs[0]
+            dom = (0 <= int(v[1:]) <= (13200000 if (w == "L" and v[0] == "l") else 20116800)) if v != "n" else True
+            try:
+                setattr(target, attr, val)
+                outs.append("ok|" + state())
+                want["LBA".index(w)] = "n" if v == "n" else v if (w == "L" and v[0] == "l") else "e%d" % (int(v[1:]) // 127 * 127)
+                if not dom:
+                    ctx.fail("domain:spacing", f"paragraph {start} after {ops[:len(outs) - 2]}: {attr} = {val!r} is accepted, the schema cannot hold it", {"start": start, "ops": ops[:len(outs) - 1]})
+            except ValueError:
+                outs.append("V|" + state())
+                if dom:
+                    ctx.fail("domain:spacing", f"paragraph {start} after {ops[:len(outs) - 2]}: {attr} = {val!r} is refused with ValueError, it is inside the documented domain", {"start": start, "ops": ops[:len(outs) - 1]})
+            got = outs[-1].split("|")[-1].split(",")
+            if got != want and "X" not in want:
+                ctx.fail("readback:spacing", f"paragraph {start}: after {ops[:len(outs) - 1]} (n = None, e = EMU, l = 1/100000 lines) line_spacing, space_before, space_after read {got}, "
+                         f"the last values assigned (as stored) are {want}", {"start": start, "ops": ops[:len(outs) - 1]})
+                break
+        ops = ops[:len(outs) - 1]
+        line = "c09.spc %s %s" % (start, ";".join(ops) or "!")
+        lines.append(line); impl.append(";".join(outs)); metas.append({"conv": "spacing", "start": start, "ops": ops})
+        ctx.case(key=line); ctx.count("spacing-model-histories")
+        if trial % 8 == 0 and "X" not in outs[-1]:
+            b = io.BytesIO(); prs.save(b)
+            q = Presentation(io.BytesIO(b.getvalue())).slides[0].shapes[0].text_frame.paragraphs[0]
+            before = [getattr(tf.paragraphs[0], a_) for _, a_ in names.values()]
+            after = [getattr(q, a_) for _, a_ in names.values()]
+            if before != after:
+                ctx.fail("reopen:spacing", f"paragraph {start} after {ops}: spacing reads {before}, after save and re-open {after}", {"start": start, "ops": ops})
+    for line, i, m, meta in zip(lines, impl, ctx.driver.run(lines), metas):
+        ctx.traces += 1
+        if i != m:
+            ctx.disagree("spacing", dict(meta, line=line), i, m)
+
+
 _ELM_ATTRS = ("_element", "_xPr", "_xFill", "_rPr", "_r", "_p", "_pPr", "_txBody", "_tc", "_tr", "_gridCol", "_ln", "_ser", "_chartSpace", "_gs", "_tbl",
               "_pic", "_sp", "_cxnSp", "_graphicFrame", "_xAx", "_dLbls", "_legend", "_title", "_marker", "_parent", "_bodyPr", "_hlink", "_prstGeom")
 
@@ -1489,6 +1630,7 @@ def correspond(ctx):
     shared_relationships(ctx)
     point_order(ctx)
     adjustment_proxies(ctx)
+    spacings(ctx)
     held_proxies(ctx)
     rng = ctx.rng
     reps = 6 if ctx.quick else 20
